@@ -16,6 +16,8 @@ type G struct {
 	Methods map[string]bool // methods used by the generated expression
 	misuse  bool
 	Misused bool
+	// LazyOperand: a list argument of a built-in is a lazy pipeline
+	LazyOperand bool
 }
 
 func (g *G) n(max int, label string) int {
@@ -88,6 +90,21 @@ func (g *G) intList(d int) *Expr {
 		return MCall(List(items...), "orderRev", lam("e", e))
 	}
 	return List(items...)
+}
+
+// operandList draws a list that is handed to a built-in as an argument (the other list
+// of cross, merge, +): half of them are lazy pipelines, so that the built-in consumes -
+// cross: repeatedly - a list whose stages carry state (number, iir, combine, fsm ...).
+func (g *G) operandList(d int) *Expr {
+	cur := g.intList(d)
+	if d <= 0 || g.n(2, "lazyOperand") == 0 {
+		return cur
+	}
+	g.LazyOperand = true
+	for i, n := 0, 1+g.n(2, "operandStages"); i < n; i++ {
+		cur = g.listStage(cur, d-1)
+	}
+	return cur
 }
 
 func (g *G) strList() *Expr {
@@ -212,11 +229,21 @@ func (g *G) listStage(recv *Expr, d int) *Expr {
 	case 12:
 		return m("compact", g.mb(lam("a,b", Bin("=", a, b))))
 	case 13:
-		return m("cross", g.mb(g.intList(d-1)), g.mb(lam("a,b", Bin("+", Bin("*", a, Int(10)), b))))
+		return m("cross", g.mb(g.operandList(d-1)), g.mb(lam("a,b", Bin("+", Bin("*", a, Int(10)), b))))
 	case 14:
 		// merge of two ordered lists
 		g.use("order")
-		return m("merge", g.mb(MCall(g.intList(d-1), "order", lam("e", e))), g.mb(lam("a,b", Bin("<", a, b))))
+		other := MCall(g.intList(d-1), "order", lam("e", e))
+		switch g.n(4, "mergeOperand") {
+		case 0:
+			// lazy stages that keep the order
+			g.LazyOperand = true
+			other = MCall(other, "number", lam("a,b", b))
+		case 1:
+			g.LazyOperand = true
+			other = MCall(MCall(other, "map", lam("e", Bin("*", e, Int(2)))), "accept", lam("e", Bin(">", e, Int(-5))))
+		}
+		return m("merge", g.mb(other), g.mb(lam("a,b", Bin("<", a, b))))
 	case 15:
 		return m("iir", g.mb(lam("e", e)), g.mb(lam("a,b", Bin("+", a, b))))
 	case 16:
@@ -229,7 +256,7 @@ func (g *G) listStage(recv *Expr, d int) *Expr {
 		return m("eval")
 	case 20:
 		g.use("+")
-		return Bin("+", recv, g.intList(d-1))
+		return Bin("+", recv, g.operandList(d-1))
 	case 21:
 		return m("order", g.mb(lam("e", e)))
 	case 22:
